@@ -115,6 +115,11 @@ func buildRendition(rng *rand.Rand, site *origin.Site, plURL string, container s
 	case typ == "VOD":
 		first := rng.Intn(3)
 		pl.History = []origin.Window{{First: first, Count: nTotal - first, Endlist: true}}
+	case (nTotal+tagBase)%6 == 5:
+		// a live or event stream that has just ended: ENDLIST already in the first fetch, but not a
+		// VOD playlist, so it is joined like any live one, at the third segment from the end
+		first := rng.Intn(3)
+		pl.History = []origin.Window{{First: first, Count: nTotal - first, Endlist: true}}
 	default:
 		count := 1 + rng.Intn(10)
 		if rng.Intn(3) != 0 && count < 3 {
